@@ -602,6 +602,10 @@ func (ex *Exec) byContract(fr *Frame, st *State, ci *ssa.Call, ct *Contract, key
 		}
 		ex.assume(st.pc, cpost.bool(c.Expr))
 	}
+	for _, c := range ct.Assumes {
+		ex.assume(st.pc, cpost.bool(c.Expr))
+		ex.trustedUsed["assumes:"+key+": "+c.Text] = true
+	}
 	return res
 }
 
